@@ -334,7 +334,7 @@ func sameIndexColumns(a, b []IndexColumn) bool {
 func (st *Schema) addCreateIndex(ci sql.CreateIndexStmt) {
 	cols := st.toIndexColumns(ci.IndexedColumns)
 	for i, c := range cols {
-		if c.Column != "" && st.Column(c.Column) < 0 && !isRowidName(c.Column) {
+		if c.Column != "" && st.Column(c.Column) < 0 {
 			// SQLite reads a quoted name which is not a column of the table as
 			// a string literal: this is an expression, not a column.
 			cols[i].Column, cols[i].Expression = "", fmt.Sprintf("'%s'", c.Column)
@@ -344,14 +344,6 @@ func (st *Schema) addCreateIndex(ci sql.CreateIndexStmt) {
 		Index:   ci.Index,
 		Columns: cols,
 	})
-}
-
-func isRowidName(name string) bool {
-	switch upperASCII(name) {
-	case "ROWID", "OID", "_ROWID_":
-		return true
-	}
-	return false
 }
 
 // change sql index columns to schema index column. Looks up defaults from the
